@@ -11,7 +11,7 @@
 (***************************************************************************)
 EXTENDS Naturals, Sequences, FiniteSets, TLC, Json
 CONSTANTS NOps, MaxWorkers
-Beh == {"ok", "bad", "badif", "neterr", "invalid"}
+Beh == {"ok", "bad", "badif", "neterr", "invalid", "weird"}
 LinkBeh == {"none", "ok", "bad"}
 PhaseSets == {<<"coverage">>, <<"fuzzing">>, <<"coverage", "fuzzing">>, <<"examples", "coverage", "fuzzing", "stateful">>,
               <<"fuzzing", "stateful">>, <<"stateful">>}
